@@ -514,7 +514,20 @@ def rule_reply_parser(ctx):
         if {("eq", "s SATISFIABLE"), ("eq", "s UNSATISFIABLE"), ("starts_with", "v "), ("is_empty", None)} <= neg:
             found = True
             extra_pos = sorted(pos)
-            r.ok(b.id + "|else-chain", "a line matching no class reaches a panic (negated tests: %s; remaining positive tests: %s)" % (sorted(neg), extra_pos), Site(b, bb, None).loc())
+            # ... whatever the parser has seen so far: the panic is governed by tests of the line only
+            state = []
+            for c in conditions(b, bb):
+                if c.is_discr or str_test_of(b, c):
+                    continue
+                for o in origins(b, c.place, transparent=()):
+                    if o.kind == "call" and callee_decl(o.data) in ("core::option::Option::is_none", "core::option::Option::is_some"):
+                        state.append("%s is %s" % (callee_decl(o.data).rsplit("::", 1)[-1], "true" if c.is_true() else "false"))
+                    elif o.kind == "const" and "bool" in o.data and len(b.defs.get(c.place["l"], [])) > 1:
+                        state.append("a flag of the parser")
+            if state:
+                r.violation(b.id + "|else-chain", "unexpected-line-tolerated", "a line of no known class reaches the panic only when %s: in the other states of the parser it is skipped, so garbage after the status line (or inside the model) is read as if it were not there" % ", ".join(sorted(set(state))), Site(b, bb, None).loc())
+            else:
+                r.ok(b.id + "|else-chain", "a line matching no class reaches a panic (negated tests: %s; remaining positive tests: %s)" % (sorted(neg), extra_pos), Site(b, bb, None).loc())
     if not found:
         r.violation(b.id + "|else-chain", "no-panic", "no panic is reached by a line that is neither a status, value, comment nor empty line", b.loc())
     # accepted line classes: every string test on the line must be in the known table
